@@ -78,7 +78,7 @@ class Fake:
         self.overlaps = []
 
     def f(self, pubs):
-        self.ctl.yield_op(("f_begin",))
+        fail = self.ctl.yield_op(("f_begin",))
         k = len(self.invocations)
         tags = [tag_of(p) for p in pubs]
         self.invocations.append(tags)
@@ -86,6 +86,12 @@ class Fake:
         self.events.append(("begin", k))
         if self.in_use:
             self.overlaps.append((k, len(self.ctl.schedule)))
+        if fail is True and self.ctl.running and not self.ctl.abort:
+            # the primitive's run() raises at submission: no job object is ever returned
+            self.events.append(("end", k))
+            self.status[k] = False
+            e = self.exceptions[k] = PrimFailure(k)
+            raise e
         self.in_use += 1
         return FakeJob(self, k, tags)
 
@@ -140,21 +146,51 @@ class MutexFake:
 
 
 # ----------------------------------------------------------------------------- one controlled run
-def instrument_tc(runner, ctl):
-    """Make the one unprotected read of `_thread_counter` (`while self._thread_counter > 0`) a yield point: a read by a
-    thread that does not hold `_variable_lock` publishes ("read_tc",).  Done by giving the *instance* a subclass with a
-    property; the code in /repo is untouched."""
-    cls = runner.__class__
+def instrumented_runner_class(mp, run):
+    """A subclass of the module's BatchingMutexPrimitiveJobRunner that is bound to the NAME in the module namespace
+    before anything is constructed, so every runner the code under test creates (whenever, however many) is instrumented:
+      * registered with the run (`run.runners`), its four synchronisation objects named E/V/I/X (E1/V1/... for further ones);
+      * the one unprotected read of `_thread_counter` (`while self._thread_counter > 0`) is a yield point: a read by a
+        thread that does not hold `_variable_lock` publishes ("read_tc",);
+      * what every call of run() handed back is recorded per logical thread.
+    The code in /repo is untouched and no private attribute of the wrappers is relied upon."""
+    orig = mp.__dict__.get("_verif_orig_runner") or mp.BatchingMutexPrimitiveJobRunner
+    mp._verif_orig_runner = orig
+    ctl = run.ctl
 
     def get(self):
-        if ctl.running and not ctl.abort and self._variable_lock.owner != ctl.current:
+        if ctl.running and not ctl.abort and getattr(self.__dict__.get("_variable_lock"), "owner", ctl.current) != ctl.current:
             ctl.yield_op(("read_tc",))
         return self.__dict__["_thread_counter"]
 
     def put(self, v):
         self.__dict__["_thread_counter"] = v
 
-    runner.__class__ = type("Instrumented" + cls.__name__, (cls,), {"_thread_counter": property(get, put)})
+    def init(self, *a, **k):
+        orig.__init__(self, *a, **k)
+        run.register_runner(self)
+
+    def spy(self, pubs):
+        i = ctl.current
+        try:
+            out = orig.run(self, pubs)
+        except coop.CoopAbort:
+            raise
+        except BaseException as e:
+            if ctl.running and not ctl.abort:
+                run._record_exc(i, e)
+            raise
+        if ctl.running and not ctl.abort:
+            run._record_ok(i, out)
+        return out
+
+    return type("Instrumented" + orig.__name__, (orig,), {"_thread_counter": property(get, put), "__init__": init, "run": spy})
+
+
+class _NoLock:
+    owner = None
+    waiters = ()
+    name = None
 
 
 class Run:
@@ -173,38 +209,47 @@ class Run:
         self.outs = [[] for _ in range(n)]  # runner-level outcomes per thread: ("ok", k, idx, resultobj) | ("exc", k, e) | ("other", name, e)
         self.wrapper_returns = [[] for _ in range(n)]
         self.wrapper = None
-        if self.level == "runner":
-            self.runner = mp.BatchingMutexPrimitiveJobRunner(f=fake.f, batch_waiting_duration=wait)
-        else:
-            cls = mp.BatchingMutexSampler if self.level == "sampler" else mp.BatchingMutexEstimator
-            self.wrapper = cls(fake, wait)
-            self.runner = self.wrapper._runner
-        r = self.runner
-        r._entry_lock.name, r._variable_lock.name = "E", "V"
-        r._internal_wait_condition.name, r._external_wait_condition.name = "I", "X"
-        self.objs = {"E": r._entry_lock, "V": r._variable_lock, "I": r._internal_wait_condition, "X": r._external_wait_condition}
-        instrument_tc(r, ctl)
-        if self.level != "runner":
-            orig = r.run
-
-            def spy(pubs):
-                i = ctl.current
-                try:
-                    out = orig(pubs=pubs)
-                except coop.CoopAbort:
-                    raise
-                except BaseException as e:
-                    self._record_exc(i, e)
-                    raise
-                self._record_ok(i, out)
-                return out
-
-            r.run = spy
+        self.runners = []
+        self.sub_fail_steps = set()  # steps at which the primitive raised at submission (f-begin with choice 1)
+        self.ctor_error = None
+        # stays bound for the whole run: runners created later (lazily) by the code under test are instrumented as well
+        mp.BatchingMutexPrimitiveJobRunner = instrumented_runner_class(mp, self)
+        try:
+            if self.level == "runner":
+                mp.BatchingMutexPrimitiveJobRunner(f=fake.f, batch_waiting_duration=wait)
+            else:
+                cls = mp.BatchingMutexSampler if self.level == "sampler" else mp.BatchingMutexEstimator
+                self.wrapper = cls(fake, wait)
+        except Exception as e:  # the constructor of the code under test failed: every call of every thread reports it
+            self.ctor_error = e
         self.trace = []
         self.status = None
         self.pending_at_end = None
         ctl.start([self._body(i) for i in range(n)])
         self.trace.append(self.snapshot())
+
+    def register_runner(self, r):
+        k = len(self.runners)
+        suffix = "" if k == 0 else str(k)
+        for attr, nm in (("_entry_lock", "E"), ("_variable_lock", "V"), ("_internal_wait_condition", "I"), ("_external_wait_condition", "X")):
+            o = r.__dict__.get(attr)
+            if o is not None:
+                try:
+                    o.name = nm + suffix
+                except Exception:
+                    pass
+        self.runners.append(r)
+
+    @property
+    def runner(self):
+        return self.runners[0] if self.runners else None
+
+    @property
+    def objs(self):
+        r = self.runner
+        d = r.__dict__ if r is not None else {}
+        none = _NoLock()
+        return {"E": d.get("_entry_lock", none), "V": d.get("_variable_lock", none), "I": d.get("_internal_wait_condition", none), "X": d.get("_external_wait_condition", none)}
 
     # ---- thread bodies
     def _record_ok(self, i, out):
@@ -227,20 +272,21 @@ class Run:
             def body():
                 for tags in calls:
                     try:
-                        out = self.runner.run(list(tags))
+                        self.runner.run(list(tags))  # the outcome is recorded by the instrumented run()
                     except coop.CoopAbort:
                         raise
-                    except BaseException as e:
-                        self._record_exc(i, e)
-                        continue
-                    self._record_ok(i, out)
+                    except AttributeError as e:
+                        if self.runner is None:
+                            self._record_exc(i, self.ctor_error or e)
+                    except BaseException:
+                        pass
             return body
 
         def wbody():
             from qiskit import QuantumCircuit
             from qiskit.quantum_info import SparsePauliOp
 
-            for tags in calls:
+            for ci, tags in enumerate(calls):
                 pubs = []
                 for t in tags:
                     qc = QuantumCircuit(1, 1 if self.level == "sampler" else 0, metadata={"tag": t})
@@ -249,8 +295,14 @@ class Run:
                         pubs.append(qc)
                     else:
                         pubs.append((qc, SparsePauliOp("Z")))
+                key = (self.cfg.get("keys") or {}).get(f"{i}:{ci}")
                 try:
-                    job = self.wrapper.run(pubs)
+                    if key is None:
+                        job = self.wrapper.run(pubs)
+                    elif self.level == "sampler":
+                        job = self.wrapper.run(pubs, shots=key)
+                    else:
+                        job = self.wrapper.run(pubs, precision=key)
                     res = job.result()
                 except coop.CoopAbort:
                     raise
@@ -268,7 +320,7 @@ class Run:
         def own(x):
             return 0 if x.owner is None else x.owner + 1
 
-        d = r.__dict__
+        d = r.__dict__ if r is not None else dict(_batched_pubs=[], _thread_counter=0, _entry_counter=0, _batch_length=0)
         out = [own(o["E"]), own(o["V"]), own(o["I"]), own(o["X"])]
         out += [len(o["I"].waiters)] + list(o["I"].waiters) + [len(o["X"].waiters)] + list(o["X"].waiters)
         bp = d.get("_batched_pubs")
@@ -314,6 +366,9 @@ class Run:
 
     # ---- stepping
     def perform(self, tid, choice):
+        p = self.ctl.recs[tid].pending
+        if p is not None and p[0] == "f_begin" and choice == 1:
+            self.sub_fail_steps.add(len(self.ctl.schedule))
         self.ctl.perform(tid, choice)
         self.trace.append(self.snapshot())
 
@@ -325,7 +380,7 @@ class Run:
         self.ctl.stop()
 
     def shared_fields(self):
-        d = self.runner.__dict__
+        d = self.runner.__dict__ if self.runner is not None else {}
         o = self.objs
         bp = d.get("_batched_pubs")
         return dict(tc=d.get("_thread_counter"), ec=d.get("_entry_counter"), blen=d.get("_batch_length"),
@@ -417,6 +472,8 @@ def random_policy(rng, p_fail=0.0, p_timeout=0.5, p_fifo=0.5, weights=None):
         kind = run.ctl.recs[t].pending[0]
         if kind == "f_end":
             c = 1 if (1 in cs and rng.random() < p_fail) else 0
+        elif kind == "f_begin":
+            c = 1 if (1 in cs and rng.random() < p_fail * 0.4) else 0
         elif kind == "notify":
             c = 0 if rng.random() < p_fifo else rng.choice(cs)
         else:
@@ -426,8 +483,9 @@ def random_policy(rng, p_fail=0.0, p_timeout=0.5, p_fifo=0.5, weights=None):
     return pol
 
 
-def round_robin_policy(fail_at=()):
-    """Deterministic: lowest enabled thread after the last one scheduled; invocation numbers in fail_at fail."""
+def round_robin_policy(fail_at=(), fail_submit_at=()):
+    """Deterministic: lowest enabled thread after the last one scheduled; invocation numbers in fail_at fail in result(),
+    those in fail_submit_at raise at submission."""
     state = {"last": -1}
 
     def pol(run, trans, step):
@@ -440,6 +498,9 @@ def round_robin_policy(fail_at=()):
         if kind == "f_end":
             k = len(run.fake.invocations) - 1
             return (t, 1 if (k in fail_at and 1 in cs) else 0)
+        if kind == "f_begin":
+            k = len(run.fake.invocations)
+            return (t, 1 if (k in fail_submit_at and 1 in cs) else 0)
         return (t, cs[0])
 
     return pol
@@ -679,11 +740,38 @@ def mask_locals(enc):
     return e
 
 
+def model_schedule(run: Run):
+    """The schedule the model replays.  A primitive that raises at submission (f-begin with choice 1) is, on HEAD, caught by
+    the same try block as a failing result(): in the model that is X2 followed by X3 with the failing choice, so such an
+    implementation step is expanded into two model steps and compared with the state after the second."""
+    sched, idx = [], []
+    for i, (t, c) in enumerate(run.schedule):
+        if i in run.sub_fail_steps:
+            sched += [(t, 0), (t, 1)]
+        else:
+            sched.append((t, c))
+        idx.append(len(sched) - 1)
+    run.model_idx = idx
+    return sched
+
+
+def model_traces_runs(runs, variant):
+    return model_traces([(r.cfg, model_schedule(r)) for r in runs], variant)
+
+
 def compare(run: Run, model):
     """First disagreement between the implementation's per-step states and the model's, or None."""
     if not locals_comparable():
         run.trace = [mask_locals(x) for x in run.trace]
         model = dict(model, init=mask_locals(model["init"]), steps=[mask_locals(x) for x in model["steps"]])
+    idx = getattr(run, "model_idx", None)
+    if idx is not None and len(idx) == len(run.trace) - 1 and any(j != i for i, j in enumerate(idx)):
+        steps = [model["steps"][j] if j < len(model["steps"]) else [] for j in idx]
+        cut = next((i for i, x in enumerate(steps) if not x), None)
+        if cut is not None:
+            steps = steps[: cut + 1]
+        nmodel = (idx[-1] + 1) if idx else 0
+        model = dict(model, steps=steps if len(model["steps"]) == nmodel or cut is not None else steps + [[]])
     if run.trace[0] != model["init"]:
         return dict(step=-1, impl=run.trace[0], model=model["init"])
     for i, (a, b) in enumerate(zip(run.trace[1:], model["steps"])):
@@ -738,18 +826,21 @@ def shape(cfg):
 
 
 # ----------------------------------------------------------------------------- exhaustive exploration
-def dfs(cfg, faults, max_faults, budget_runs, depth_limit, on_run, stop_on_violation=True):
+def dfs(cfg, faults, max_faults, budget_runs, depth_limit, on_run, stop_on_violation=True, time_budget=None):
     """Complete exploration of the controller's choices (which thread, which waiter, timeout, failure) with state
     caching: a state = shared fields + pending operations + outcomes (the encoded snapshot) + every thread's source line
     and locals.  Each run replays a schedule prefix from scratch and extends it along unvisited states.
     Returns dict(states, runs, complete, truncated)."""
+    import time as _time
+
     visited = set()
     stack = [[]]
     runs = 0
     truncated = 0
+    t0 = _time.time()
     while stack:
-        if runs >= budget_runs:
-            return dict(states=len(visited), runs=runs, complete=False, truncated=truncated, open=len(stack))
+        if runs >= budget_runs or (time_budget is not None and _time.time() - t0 > time_budget):
+            return dict(states=len(visited), runs=runs, complete=False, truncated=truncated, open=len(stack), seconds=round(_time.time() - t0, 1))
         prefix = stack.pop()
         pushed = []
 
@@ -764,7 +855,7 @@ def dfs(cfg, faults, max_faults, budget_runs, depth_limit, on_run, stop_on_viola
             if step >= depth_limit:
                 pushed.append(None)
                 return None
-            tr = [(t, c) for t, c in trans if not (c == 1 and run.ctl.recs[t].pending[0] == "f_end" and nf >= max_faults)]
+            tr = [(t, c) for t, c in trans if not (c == 1 and run.ctl.recs[t].pending[0] in ("f_end", "f_begin") and nf >= max_faults)]
             cur = list(run.ctl.schedule)
             for alt in tr[1:]:
                 stack.append(cur + [alt])
@@ -777,13 +868,16 @@ def dfs(cfg, faults, max_faults, budget_runs, depth_limit, on_run, stop_on_viola
         stop = on_run(run)
         if stop and stop_on_violation:
             return dict(states=len(visited), runs=runs, complete=False, truncated=truncated, open=len(stack), stopped=True)
-    return dict(states=len(visited), runs=runs, complete=truncated == 0, truncated=truncated, open=0)
+    return dict(states=len(visited), runs=runs, complete=truncated == 0, truncated=truncated, open=0, seconds=round(_time.time() - t0, 1))
 
 
 # ----------------------------------------------------------------------------- plain mutex wrappers
 class MutexRun:
     def __init__(self, kind, calls):
-        """kind: 'sampler' | 'estimator'; calls[i] = number of run() calls of thread i."""
+        """kind: 'sampler' | 'estimator'; calls[i] = number of run() calls of thread i.  Every run starts from a FRESHLY
+        constructed wrapper; the name `SerializableLock` is rebound in the module namespace (coop.install), so whatever lock
+        object(s) the wrapper creates, in its constructor or later, are cooperative, and creating one during the schedule is
+        a yield point.  No attribute of the wrapper is replaced or relied upon."""
         mp = mp_module()
         self.calls = calls
         n = len(calls)
@@ -792,8 +886,6 @@ class MutexRun:
         self.fake = MutexFake(ctl)
         cls = mp.MutexSampler if kind == "sampler" else mp.MutexEstimator
         self.wrapper = cls(self.fake)
-        self.lock = coop.CoopLock(name="L", ctl=ctl)
-        self.wrapper._lock = self.lock  # replaces the dask SerializableLock of this instance
         self.made = [0] * n
         self.errors = []
         self.trace = []
@@ -813,13 +905,17 @@ class MutexRun:
         return body
 
     def snapshot(self):
-        out = [0 if self.lock.owner is None else self.lock.owner + 1]
+        locks = [l for l in self.ctl.locks if isinstance(l, coop.CoopSerializableLock)]
+        first = locks[0] if locks else None
+        out = [0 if first is None or first.owner is None else first.owner + 1]
         for rec in self.ctl.recs:
             p = rec.pending
             if rec.done or p is None:
                 code = 0
             else:
                 code = {"acquire": 1, "run_begin": 2, "run_end": 3, "release": 4}.get(p[0], 9)
+                if code in (1, 4) and p[1] is not first:
+                    code = 8  # an operation on another lock than the wrapper's first one
             out += [code, int(bool(self.ctl.enabled_choices(rec.tid))), self.made[rec.tid]]
         return out
 
@@ -879,9 +975,10 @@ def mutex_model_traces(cases):
 
 
 # ----------------------------------------------------------------------------- the checks C06–C09
-FAULTS = {"C06": False, "C07": False, "C08": False, "C09": True}
+FAULTS = {"C06": True, "C07": False, "C08": False, "C09": True}  # C06: "handed exactly once" must survive failing batches
+P_FAIL = {"C06": 0.15, "C07": 0.0, "C08": 0.0, "C09": 0.3}
 RULES = {
-    "C06": "schedules of the real BatchingMutexPrimitiveJobRunner.run under the cooperative scheduler, primitive never fails: ",
+    "C06": "schedules of the real BatchingMutexPrimitiveJobRunner.run under the cooperative scheduler, some invocations fail (the pubs of a failed batch count as handed once): ",
     "C07": "as C06 plus MutexSampler/MutexEstimator with the instance lock replaced: ",
     "C08": "schedules without primitive failure, emphasis on pre-emption (one thread frozen at each kind of synchronisation operation while the others run) and early/late timeouts: ",
     "C09": "schedules in which the controller lets primitive invocations fail (first / later / consecutive / random): ",
@@ -940,7 +1037,7 @@ class Explorer:
         runs, self.pending_model = self.pending_model, []
         if not runs:
             return
-        models = model_traces([(r.cfg, r.schedule) for r in runs], self.variant)
+        models = model_traces_runs(runs, self.variant)
         for r, m in zip(runs, models):
             d = compare(r, m)
             self.ctx.traces += 1
@@ -986,7 +1083,7 @@ def run_property(ctx, pid):
     ex = Explorer(ctx, pid)
     rng = ctx.rng
     faults = ex.faults
-    pf = 0.3 if faults else 0.0
+    pf = P_FAIL[pid]
     ewt = detect_variant()
     if ewt is None:  # the probe schedule did not reach the retry wait: compare with HEAD's variant
         ctx.notes["variant_probe"] = "the probe schedule did not reach the external wait; assuming the timed variant"
@@ -1021,7 +1118,9 @@ def run_property(ctx, pid):
     ctx.notes["dfs"] = []
     for cfg in dfs_cfgs:
         big = len(cfg["calls"]) > 2
-        r = dfs(cfg, faults=faults, max_faults=(2 if not ctx.quick else 1) if faults else 0, budget_runs=ctx.n(4000, 60000 if big else 40000), depth_limit=700, on_run=on_run("dfs"))
+        first = cfg is dfs_cfgs[0]
+        r = dfs(cfg, faults=faults, max_faults=(2 if (not ctx.quick and first) else 1) if faults else 0, budget_runs=ctx.n(4000, 60000),
+                depth_limit=700, on_run=on_run("dfs"), time_budget=ctx.n(45, 240 if first else 150))
         r["cfg"] = cfg
         ctx.notes["dfs"].append(r)
         if cfg is dfs_cfgs[0] and r["complete"]:
@@ -1034,22 +1133,29 @@ def run_property(ctx, pid):
                 ex.account(execute(cfg, round_robin_policy(fail_at=fail_at)), "fault-positions")
                 cfg1 = dict(level="runner", linger=lg, calls=[[[1], [2], [3], [4]]])
                 ex.account(execute(cfg1, round_robin_policy(fail_at=fail_at)), "fault-positions")
+                ex.account(execute(cfg, round_robin_policy(fail_submit_at=fail_at)), "fault-positions-submit")
+                ex.account(execute(cfg1, round_robin_policy(fail_at=fail_at[:1], fail_submit_at=fail_at[1:])), "fault-positions-submit")
     # ---- random / contention schedules
-    for i in range(ctx.n(260, 6000)):
+    for i in range(ctx.n(260, 4000)):
         cfg = dict(level="runner", linger=rng.choice([0, 0, 1]), calls=gen_calls(rng))
         pol = random_policy(rng, p_fail=pf) if i % 3 else contention_policy(rng, p_fail=pf)
         ex.account(execute(cfg, pol, faults=faults), "random" if i % 3 else "contention")
     # ---- freeze one thread at every kind of operation
-    for rep in range(ctx.n(2, 25)):
+    for rep in range(ctx.n(2, 20)):
         for kind, obj in FREEZE_POINTS:
             for occ in (1, 2):
                 cfg = dict(level="runner", linger=rng.choice([0, 0, 1]), calls=gen_calls(rng, nthreads=rng.choice([2, 2, 3]), max_calls=2))
                 z = rng.randrange(len(cfg["calls"]))
                 ex.account(execute(cfg, freeze_at_policy(rng, z, kind, obj, occ, p_fail=pf), faults=faults), "freeze")
     # ---- wrapper level (BatchingMutexSampler / BatchingMutexEstimator through PrimitiveJob threads)
-    for i in range(ctx.n(30, 400)):
+    for i in range(ctx.n(40, 400)):
         cfg = dict(level=rng.choice(["sampler", "estimator"]), linger=rng.choice([0, 1]), calls=gen_calls(rng, nthreads=rng.choice([2, 3]), max_calls=2))
-        ex.account(execute(cfg, random_policy(rng, p_fail=pf), faults=faults), "wrapper")
+        if i % 2:
+            # callers with different shots / precision values (None vs numbers)
+            vals = [None, 10, 20] if cfg["level"] == "sampler" else [None, 0.1, 0.25]
+            cfg["keys"] = {f"{a}:{b}": rng.choice(vals) for a, th in enumerate(cfg["calls"]) for b in range(len(th))}
+        pol = random_policy(rng, p_fail=pf) if i % 4 < 2 else contention_policy(rng, p_fail=pf)
+        ex.account(execute(cfg, pol, faults=faults), "wrapper" + ("-keys" if i % 2 else ""))
     ex.flush()
     ex.report()
     ctx.notes["steps_executed"] = ex.steps
@@ -1084,13 +1190,116 @@ def run_mutex(ctx):
                 ctx.violation("correspondence", "mutex-model-vs-impl", "Batch/Mutex.v and MutexSampler/MutexEstimator differ", dict(mutex=r.kind, calls=r.calls, schedule=r.schedule), detail=dict(impl=r.trace[:40], model=[m["init"]] + m["steps"][:40]))
 
 
+def restore_real(mp=None):
+    """Undo the rebinding of Lock/Condition/sleep/SerializableLock/runner class in the module namespace (re-executes the
+    module from /repo's working tree)."""
+    import importlib
+
+    mp = mp or mp_module()
+    mp.__dict__.pop("_verif_orig_runner", None)
+    importlib.reload(mp)
+    return mp
+
+
+def blackbox_stress(ctx, seconds=0.7):
+    """C07, no instrumentation at all: real threads, the real threading/dask locks, a fake primitive that sleeps a little
+    and records whether two uses overlap.  Batching wrappers: use = from the start of run() until result() has been
+    retrieved, callers with different shots / precision values.  Plain mutex wrappers: use = run(), all threads released
+    at once on a fresh wrapper.  This is the fallback oracle that does not depend on any attribute of the code under test."""
+    import time as _time
+
+    mp = restore_real()
+    report = {}
+    for kind in ("BatchingMutexSampler", "BatchingMutexEstimator", "MutexSampler", "MutexEstimator"):
+        st = dict(in_use=0, overlaps=0, uses=0, errors=[])
+        guard = threading.Lock()
+
+        class Job:
+            def __init__(self, n):
+                self.n = n
+
+            def result(self):
+                _time.sleep(0.001)
+                with guard:
+                    st["in_use"] -= 1
+                from qiskit.primitives import DataBin, PrimitiveResult, PubResult
+
+                return PrimitiveResult([PubResult(DataBin(), metadata={}) for _ in range(self.n)], metadata={})
+
+        class Prim:
+            def run(self, pubs, *a, **kw):
+                with guard:
+                    if st["in_use"]:
+                        st["overlaps"] += 1
+                    st["in_use"] += 1
+                    st["uses"] += 1
+                _time.sleep(0.001)
+                if kind.startswith("Batching"):
+                    return Job(len(list(pubs)))  # in use until result() is retrieved
+                with guard:
+                    st["in_use"] -= 1
+                return ("job",)
+
+        try:
+            cls = getattr(mp, kind)
+            batching = kind.startswith("Batching")
+            rounds = 1 if batching else 12
+            for _ in range(rounds):
+                w = cls(Prim(), 0.001) if batching else cls(Prim())
+                stop = _time.time() + (seconds if batching else seconds / rounds)
+                barrier = threading.Barrier(6)
+
+                def body(i):
+                    from qiskit import QuantumCircuit
+                    from qiskit.quantum_info import SparsePauliOp
+
+                    n = 0
+                    try:
+                        barrier.wait(5)
+                    except Exception:
+                        pass
+                    while _time.time() < stop:
+                        try:
+                            if batching:
+                                qc = QuantumCircuit(1, 1)
+                                qc.measure(0, 0)
+                                if "Sampler" in kind:
+                                    w.run([qc], shots=[None, 10, 20][(i + n) % 3]).result()
+                                else:
+                                    w.run([(QuantumCircuit(1), SparsePauliOp("Z"))], precision=[None, 0.1, 0.25][(i + n) % 3]).result()
+                            else:
+                                w.run(["pub"])
+                        except Exception as e:
+                            st["errors"].append(repr(e)[:200])
+                            break
+                        n += 1
+
+                ths = [threading.Thread(target=body, args=(i,), daemon=True) for i in range(6)]
+                for t in ths:
+                    t.start()
+                for t in ths:
+                    t.join(seconds + 20)
+                if any(t.is_alive() for t in ths):
+                    st["errors"].append("a caller did not return within 20 s after the deadline")
+                    break
+        except Exception as e:
+            st["errors"].append("setup: " + repr(e)[:200])
+        report[kind] = dict(uses=st["uses"], overlaps=st["overlaps"], errors=st["errors"][:2])
+        ctx.case(["blackbox", kind], True)
+        ctx.tally("blackbox:" + kind)
+        if st["overlaps"]:
+            ctx.violation("oracle", "blackbox-overlap", f"{kind}, free-running threads (real locks, no instrumentation): {st['overlaps']} of {st['uses']} uses of the wrapped primitive began while another was in progress", dict(blackbox=kind))
+        elif st["errors"]:
+            ctx.violation("oracle", "blackbox-error", f"{kind}, free-running threads: {st['errors'][0]}", dict(blackbox=kind))
+    ctx.notes["blackbox_free_running"] = report
+
+
 def stress_free_running(ctx, seconds=2.0, nthreads=8):
     """C07 thorough tier: the real threading.Lock/Condition/sleep, real scheduler; the fake primitive detects overlap."""
     import importlib
     import time as _time
 
-    mp = mp_module()
-    importlib.reload(mp)  # restore threading.Lock / Condition / time.sleep in the module namespace
+    mp = restore_real()  # threading.Lock / Condition / time.sleep back in the module namespace
     state = dict(in_use=0, overlaps=0, calls=0, errors=[])
     guard = threading.Lock()
 
@@ -1145,6 +1354,9 @@ def stress_free_running(ctx, seconds=2.0, nthreads=8):
 
 def replay_property(ctx, pid, payload):
     c = payload.get("case") or payload.get("failing_input") or payload
+    if "blackbox" in c or "stress" in c or "installed" in c:
+        print("this case is a free-running / configuration check without a schedule; re-run ./check", pid)
+        return
     if "mutex" in c:
         run = mutex_execute(c["mutex"], c["calls"], schedule=c["schedule"])
         print("status:", run.status, "overlaps:", run.fake.overlaps, "pending:", run.pending_at_end)
@@ -1164,7 +1376,7 @@ def replay_property(ctx, pid, payload):
     for p, k, w in vs:
         if p == pid:
             ctx.violation("oracle", k, w, c)
-    m = model_traces([(run.cfg, run.schedule)], (1 if ewt else 0, 1))[0]
+    m = model_traces_runs([run], (1 if ewt else 0, 1))[0]
     d = compare(run, m)
     print("model-vs-impl:", "agree on every step" if d is None else f"DIFFER {d}")
 
